@@ -1,9 +1,18 @@
 package main
 
-// C13 (c): randomised drivers.  Per scenario 2-4 threads of the cast run
-// subscribe / read / cancel rounds while one emitter emits numbered events on
-// both signals; random yields and short sleeps (also at the proxy and server
-// gates) vary the interleaving.  The trace is validated by TLC.
+// C13 (c): randomised drivers.  Per scenario some threads of the cast run
+// subscribe / read / cancel rounds while one emitter emits numbered events;
+// random yields and short sleeps (also at the proxy and server gates) vary the
+// interleaving.  The trace is validated by TLC.  Three kinds of scenario:
+//   classic  threads on one object (two signals, two connections)
+//   objects  subscribers of sibling objects (same service, same action ids) and of an
+//            object with the same id in another service, through ONE client and through
+//            separate connections; emissions on all objects; now and then the server
+//            sends a non-Event message addressed like a subscribed signal
+//   failing  one or two subscribers on the harness-owned connection c3 next to
+//            subscribers on healthy connections; at a random moment the server's
+//            writes to c3 start failing (io.EOF or another error) while its reader
+//            notices nothing, emissions go on, later the reader sees the end
 
 import (
 	"math/rand"
@@ -18,9 +27,26 @@ import (
 	"verif/harness/hlib"
 )
 
+type recKind struct {
+	name    string
+	casts   [][]string
+	targets []emission // what the emitter picks from
+}
+
+var recKinds = []recKind{
+	{"classic", [][]string{{"t1", "t2"}, {"t1", "t2", "t4"}, {"t1", "t3"}, {"t1", "t2", "t3", "t4"}, {"t1", "t4", "t5"},
+		{"t1", "t2", "t3", "t4", "t5"}},
+		[]emission{{"o1", "A"}, {"o1", "A"}, {"o1", "B"}}},
+	{"objects", [][]string{{"t1", "t6"}, {"t1", "t6", "t7"}, {"t1", "t8"}, {"t1", "t6", "t8"}, {"t1", "t2", "t6", "t7"},
+		{"t1", "t3", "t6", "t8"}, {"t4", "t6", "t7", "t8"}},
+		[]emission{{"o1", "A"}, {"o2", "A"}, {"o3", "A"}, {"o2", "A"}, {"o1", "B"}, {"o2", "B"}}},
+	{"failing", [][]string{{"t9", "t4"}, {"t9", "t1", "t4"}, {"t9", "t10", "t4", "t7"}, {"t9", "t1", "t2"}, {"t9", "t10", "t1", "t6"}},
+		[]emission{{"o1", "A"}, {"o1", "A"}, {"o2", "A"}}},
+}
+
 func c13Record(args []string) {
 	if len(args) < 2 {
-		hlib.Fatal("usage: c13-record <trace-out> <scenarios> [mode]")
+		hlib.Fatal("usage: c13-record <trace-out> <scenarios>")
 	}
 	out, err := os.Create(args[0])
 	if err != nil {
@@ -29,7 +55,7 @@ func c13Record(args []string) {
 	defer out.Close()
 	n, _ := strconv.Atoi(args[1])
 	seed := hlib.Seed()
-	w := newWorld()
+	w := newWorld13()
 	res := &hlib.Result{}
 	var gateRng uint64 = uint64(seed)*2654435761 + 7
 	pause := func(kv ...interface{}) {
@@ -42,13 +68,27 @@ func c13Record(args []string) {
 			time.Sleep(time.Duration(x>>8%150) * time.Microsecond)
 		}
 	}
-	lines, subs, emits := 0, 0, 0
+	lines, subs, emits, breaks, injects, rogues := 0, 0, 0, 0, 0, 0
+	kinds := map[string]int{}
 	var index []map[string]interface{}
-	casts := [][]string{{"t1", "t2"}, {"t1", "t2", "t4"}, {"t1", "t3"}, {"t1", "t2", "t3", "t4"}, {"t1", "t4", "t5"}, {"t1", "t2", "t3", "t4", "t5"}}
+	slowN, ran := 0, 0
+	var slowT time.Duration
 	for i := 0; i < n; i++ {
+		// failure budget (see c13-gated)
+		if slowN >= 40 || slowT > 60*time.Second {
+			break
+		}
+		ran++
+		t0 := time.Now()
 		rng := rand.New(rand.NewSource(seed*7919 + int64(i)))
-		conns := map[string]*conn{"c1": w.dial(), "c2": w.dial()}
-		s := newScenario(w, conns)
+		// half of the scenarios are classic, a quarter each of the others
+		kind := recKinds[[]int{0, 1, 0, 2}[i%4]]
+		cast := kind.casts[rng.Intn(len(kind.casts))]
+		var spy []string
+		if kind.name == "objects" {
+			spy = []string{"c1", "c2"}
+		}
+		s := newScenario(w, cast)
 		for _, p := range c13Gates {
 			gate := p
 			vhook.SetGate(gate, func(kv ...interface{}) {
@@ -56,33 +96,59 @@ func c13Record(args []string) {
 				s.pointOnly(gate)
 			})
 		}
-		cast := casts[rng.Intn(len(casts))]
 		rounds := 1 + rng.Intn(3)
 		nEmit := 3 + rng.Intn(6)
 		var wg sync.WaitGroup
 		var live int32 = int32(len(cast))
+		// c3busy: the threads of c3 hold it (shared) while a call of theirs is in flight; the
+		// breaker takes it exclusively: the connection breaks while its client is quiet
+		var c3busy sync.RWMutex
 		for _, th := range cast {
 			wg.Add(1)
 			go func(th string, r *rand.Rand) {
 				defer wg.Done()
 				defer atomic.AddInt32(&live, -1)
 				t := s.threads[th]
+				onC3 := castConn[th] == "c3"
 				for k := 0; k < rounds; k++ {
+					if onC3 {
+						c3busy.RLock()
+						if t.conn.dead() {
+							c3busy.RUnlock()
+							return
+						}
+					}
 					s.subCall(th)
 					ok, good := s.subAck(th, TBound)
+					if onC3 {
+						c3busy.RUnlock()
+					}
 					if !ok || !good {
 						return
 					}
 					time.Sleep(time.Duration(r.Intn(400)) * time.Microsecond)
+					if onC3 {
+						// a subscriber of the connection that is going to break mostly stays
+						if k == rounds-1 || r.Intn(3) > 0 {
+							return
+						}
+						c3busy.RLock()
+						if t.conn.dead() {
+							c3busy.RUnlock()
+							return
+						}
+					}
 					s.cancelCall(th)
 					select {
 					case <-t.canRet:
 					case <-time.After(TBound):
-						return
 					}
 					select {
 					case <-t.closed:
 					case <-time.After(TBound):
+					}
+					if onC3 {
+						c3busy.RUnlock()
 					}
 					if r.Intn(2) == 0 {
 						runtime.Gosched()
@@ -91,13 +157,54 @@ func c13Record(args []string) {
 			}(th, rand.New(rand.NewSource(rng.Int63())))
 			subs += rounds
 		}
-		// emitter: keeps going while subscribers are around
-		for e := 0; e < nEmit && atomic.LoadInt32(&live) > 0; e++ {
-			sig := "A"
-			if rng.Intn(3) == 0 {
-				sig = "B"
+		breakAt, noticeAt := -1, -1
+		if kind.name == "failing" {
+			breakAt = rng.Intn(nEmit)
+			noticeAt = breakAt + rng.Intn(nEmit-breakAt+1)
+		}
+		breakKind := []string{"eof", "err"}[rng.Intn(2)]
+		injected := map[string]bool{}
+		rogued := map[string]bool{}
+		// emitter: keeps going while subscribers are around (and, when a connection is to
+		// break, until it has broken and the server has seen it)
+		for e := 0; e < nEmit && (atomic.LoadInt32(&live) > 0 || breakAt >= 0); e++ {
+			if e == breakAt {
+				time.Sleep(time.Duration(rng.Intn(300)) * time.Microsecond)
+				c3busy.Lock()
+				s.conns["c3"].pipe.breakWrites(breakKind)
+				c3busy.Unlock()
+				breaks++
 			}
-			s.emit(sig)
+			if e == noticeAt && e > breakAt {
+				s.conns["c3"].pipe.notice()
+			}
+			if spy != nil && rng.Intn(4) == 0 {
+				// (each address at most once per scenario: Signal.tla InjectMsg)
+				tg := kind.targets[rng.Intn(len(kind.targets))]
+				cn := spy[rng.Intn(2)]
+				if !injected[cn+tg.o+tg.sig] {
+					injected[cn+tg.o+tg.sig] = true
+					s.inject(cn, tg.o, tg.sig)
+					injects++
+				}
+			}
+			if spy != nil && rng.Intn(3) == 0 {
+				// a foreign unregisterEvent: connection cn names the registration the other
+				// connection holds for one of the cast's subscriptions (each connection once)
+				th := cast[rng.Intn(len(cast))]
+				cn := map[string]string{"c1": "c2", "c2": "c1"}[castConn[th]]
+				if !rogued[cn] {
+					rogued[cn] = true
+					s.rogue(cn, castObj[th], castSig[th], castConn[th])
+					select {
+					case <-s.rogueRet:
+					case <-time.After(TBound):
+					}
+					rogues++
+				}
+			}
+			tg := kind.targets[rng.Intn(len(kind.targets))]
+			s.emit(tg.o, tg.sig)
 			select {
 			case <-s.emitRet:
 			case <-time.After(TBound):
@@ -106,27 +213,47 @@ func c13Record(args []string) {
 			time.Sleep(time.Duration(rng.Intn(200)) * time.Microsecond)
 		}
 		wg.Wait()
-		for _, c := range conns {
-			c.bomb(w, s.id).IsStatsEnabled()
+		if c := s.conns["c3"]; c != nil {
+			if !c.dead() {
+				// the scenario was over before the break: the threads of c3 that stayed
+				// subscribed cancel like everybody else
+				for _, th := range cast {
+					if castConn[th] == "c3" {
+						s.finish(th)
+					}
+				}
+			} else {
+				c.pipe.notice()
+				s.waitClosers(c, TBound)
+			}
 		}
+		s.flush()
 		time.Sleep(300 * time.Microsecond)
 		nl := s.trace(out)
-		index = append(index, map[string]interface{}{"i": i, "lines": nl, "cast": cast})
+		index = append(index, map[string]interface{}{"i": i, "lines": nl, "cast": cast, "kind": kind.name})
+		kinds[kind.name]++
 		lines += nl
 		s.close()
-		for _, c := range conns {
-			c.ep.Close()
+		if d := time.Since(t0); d > 1500*time.Millisecond {
+			slowN++
+			slowT += d
 		}
 	}
 	for _, p := range c13Gates {
 		vhook.SetGate(p, nil)
 	}
-	res.Evaluations = n
-	res.Distinct = n
+	res.Evaluations = ran
+	res.Distinct = ran
+	res.SetExtra("c13_record_slow_scenarios", slowN)
+	res.SetExtra("c13_record_skipped_after_budget", n-ran)
 	res.SetExtra("c13_record_lines", lines)
 	res.SetExtra("index", index)
 	res.SetExtra("c13_record_subscriptions", subs)
 	res.SetExtra("c13_record_emissions", emits)
+	res.SetExtra("c13_record_kinds", kinds)
+	res.SetExtra("c13_record_breaks", breaks)
+	res.SetExtra("c13_record_injections", injects)
+	res.SetExtra("c13_record_foreign_unregisters", rogues)
 	res.Emit()
 }
 
